@@ -19,7 +19,8 @@ SPEC = {
         "digest depends on the input root only through its digest (C28_action_digest). The step from the callers' operations to the insertion lists is "
         "proved too (Lemmas/DirBuilderOps.lean): dir() with its hasChild guard is analysed on the builder as a partial function, the builder after any "
         "list of operations is characterised declaratively (C28_builder_contents), hence any permutation of a consistent list of operations gives the same "
-        "root digest and the same uploaded messages (C28_insertion_order_irrelevant). Not proved: that walk never runs out of fuel (the model uses depth+2)."
+        "root digest and the same uploaded messages (C28_insertion_order_irrelevant); walk with the model's fuel (depth+2) never fails on such a builder, so the result is "
+        "total: both walks succeed and agree (C28_walk_total, C28_insertion_order_irrelevant_total). C28_action_digest is plain function congruence, kept for the record."
     ),
     "technique": "Lean proof (sort+adjacent-dedup = strictly sorted; sorted permutations of a consistent list coincide; induction over the tree walk) "
                  "+ go/ast facts of walk/dir/buildEnv/buildAction + differential run of the real dirBuilder through a verif hook over every permutation",
